@@ -531,6 +531,12 @@ def run(ctx, scratch):
             n, E = tie_rich(rng, fam)
             if E and n >= 2:
                 paris_case('ties_' + fam, n, und(E))
+        # rank-one weights A = x x^T with self-loops: EVERY pair of clusters has similarity exactly 1 at every level, so the merge
+        # heights differ by float32 rounding only (seed C07_13 needed exact ties over three successive levels)
+        for k in range(300 if quick else 3000):
+            n = rng.randint(5, 14)
+            x = [rng.randint(1, 5) for _ in range(n)]
+            paris_case('ties_rank_one', n, [[i, j, x[i] * x[j]] for i in range(n) for j in range(n)])
 
         # ---- LouvainHierarchy / LouvainIteration
         def louvain_case(fam, n, coo, n1=None, n2=None, k=2):
